@@ -263,6 +263,9 @@ func runE2E(op string, rep *hx.Report) string {
 			hello = p
 		}
 	}
+	if idle, _ := strconv.Atoi(kvGet(ws, "idle")); idle > 0 {
+		return runIdle(op, rep, rig, ep, hello, mode, idle, up, down, seed)
+	}
 	if par, _ := strconv.Atoi(kvGet(ws, "par")); par > 1 {
 		return runParallel(op, rep, rig, ep, hello, mode, par, up, down, seed)
 	}
@@ -415,6 +418,106 @@ func runE2E(op string, rep *hx.Report) string {
 	}
 	hx.WithTimeout(10*time.Second, wg.Wait)
 	return fmt.Sprintf("ok up=%d down=%d", len(got), len(clGot))
+}
+
+// runIdle opens `idle` front connections one after the other, each of which delivers its ClientHello
+// and then stays open without traffic, and then moves payloads in both directions over one more
+// connection: connections that are merely open must not keep a later one from being served.
+func runIdle(op string, rep *hx.Report, rig *snix.Rig, ep *sniproxy.Endpoint, hello []byte, mode string, idle, up, down int, seed uint64) string {
+	fail := func(key, desc string) { rep.Fail(key+":"+mode, desc, []string{op}) }
+	rr := hx.NewRand(seed*977 + 5)
+	upData, downData := rr.Bytes(up), rr.Bytes(down)
+	arrived := make([]chan struct{}, idle+1)
+	for i := range arrived {
+		arrived[i] = make(chan struct{})
+	}
+	stop := make(chan struct{})
+	var appWg sync.WaitGroup
+	activeDone := make(chan string, 1)
+	go func() {
+		for {
+			c, err := ep.Accept()
+			if err != nil {
+				return
+			}
+			appWg.Add(1)
+			go func() {
+				defer appWg.Done()
+				defer c.Close()
+				c.SetDeadline(time.Now().Add(60 * time.Second))
+				hb := make([]byte, len(hello)+1)
+				if _, err := io.ReadFull(c, hb); err != nil || !bytes.Equal(hb[:len(hello)], hello) || int(hb[len(hello)]) > idle {
+					return
+				}
+				i := int(hb[len(hello)])
+				close(arrived[i])
+				if i < idle {
+					<-stop
+					return
+				}
+				go c.Write(downData)
+				got := make([]byte, len(upData))
+				if _, err := io.ReadFull(c, got); err != nil {
+					activeDone <- "short"
+				} else if !bytes.Equal(got, upData) {
+					activeDone <- "altered"
+				} else {
+					activeDone <- "ok"
+				}
+				<-stop
+			}()
+		}
+	}()
+	var conns []net.Conn
+	defer func() {
+		close(stop)
+		for _, c := range conns {
+			c.Close()
+		}
+		hx.WithTimeout(10*time.Second, appWg.Wait)
+	}()
+	open := func(i int) (net.Conn, bool) {
+		cl, err := net.Dial("tcp", rig.Lis.Addr().String())
+		if err != nil {
+			return nil, false
+		}
+		conns = append(conns, cl)
+		cl.SetDeadline(time.Now().Add(60 * time.Second))
+		cl.Write(hello)
+		cl.Write([]byte{byte(i)})
+		select {
+		case <-arrived[i]:
+			return cl, true
+		case <-time.After(15 * time.Second):
+			fail("connection-starved", fmt.Sprintf("the ClientHello of connection %d did not reach the application within 15 s while %d earlier connections were open and idle", i, i))
+			return cl, false
+		}
+	}
+	for i := 0; i < idle; i++ {
+		if _, ok := open(i); !ok {
+			return fmt.Sprintf("starved at %d", i)
+		}
+	}
+	cl, ok := open(idle)
+	if !ok {
+		return fmt.Sprintf("starved at %d", idle)
+	}
+	go cl.Write(upData)
+	got := make([]byte, len(downData))
+	if _, err := io.ReadFull(cl, got); err != nil {
+		fail("down-stream-incomplete", fmt.Sprintf("with %d idle connections open, the active connection received fewer than %d bytes: %v", idle, len(downData), err))
+	} else if !bytes.Equal(got, downData) {
+		fail("down-stream-altered", fmt.Sprintf("with %d idle connections open, the active connection read altered bytes (difference at %d)", idle, firstDiff(got, downData)))
+	}
+	select {
+	case r := <-activeDone:
+		if r != "ok" {
+			fail("up-stream-"+map[string]string{"short": "incomplete", "altered": "altered"}[r], fmt.Sprintf("with %d idle connections open, the active connection's upstream bytes arrived %s", idle, r))
+		}
+	case <-time.After(30 * time.Second):
+		fail("up-stream-incomplete", fmt.Sprintf("with %d idle connections open, the active connection's upstream bytes did not arrive within 30 s", idle))
+	}
+	return fmt.Sprintf("ok idle=%d", idle)
 }
 
 // runParallel drives `par` front connections at once through one endpoint, each with its own
@@ -642,6 +745,17 @@ func main() {
 		// several bulk connections at once through one endpoint (buffers shared between sessions would show here)
 		for i, mode := range []string{"legacy", "siding", "siding-addr", "legacy"} {
 			ops = append(ops, fmt.Sprintf("e2e mode=%s up=%d down=%d seed=%d close=client par=%d", mode, 200000+i, 300000+i, r.U64()%100000, 4+2*i))
+		}
+		// many connections multiplexed over one tunnel at once, most of them idle most of the time (a bound on
+		// what the endpoint serves concurrently would starve the later ones: each idle connection has a read outstanding)
+		ops = append(ops, fmt.Sprintf("e2e mode=legacy up=%d down=%d seed=%d close=client par=%d", 20000, 30000, r.U64()%100000, 40))
+		for _, mode := range []string{"legacy", "siding"} {
+			ops = append(ops, fmt.Sprintf("e2e mode=%s up=%d down=%d seed=%d close=client idle=%d", mode, 70000, 90000, r.U64()%100000, 40))
+		}
+		if f.Thorough() {
+			ops = append(ops, fmt.Sprintf("e2e mode=legacy up=%d down=%d seed=%d close=client idle=%d", 70000, 90000, r.U64()%100000, 200))
+			ops = append(ops, fmt.Sprintf("e2e mode=legacy up=%d down=%d seed=%d close=client par=%d", 3000, 2000, r.U64()%100000, 140))
+			ops = append(ops, fmt.Sprintf("e2e mode=siding up=%d down=%d seed=%d close=client par=%d", 3000, 2000, r.U64()%100000, 70))
 		}
 		// ClientHellos padded up to the record limit: the peeked hello must still reach the application whole
 		for i, hl := range []int{4091, 4092, 16379, 16380, 16384} {
